@@ -1289,7 +1289,7 @@ fn judge(
     // (a) panics
     if let Some(msg) = &out.unwound {
         let (loc, _) = out.panics.first().cloned().unwrap_or(("unknown".into(), String::new()));
-        rep.violation(&format!("C15:{name}:panic:{loc}"), &format!("{name} panicked at {loc} on a {}-byte malformed input ({}): {}", input.len(), m.desc(), msg), replay(json!({"panic": msg, "location": loc})));
+        rep.violation(&format!("C15:panic:{loc}"), &format!("{name} panicked at {loc} on a {}-byte malformed input ({}): {}", input.len(), m.desc(), msg), replay(json!({"panic": msg, "location": loc})));
     } else if let Some((loc, msg)) = out.panics.first() {
         match &out.result {
             Err(CallErr::Err(_)) => {
@@ -1299,7 +1299,7 @@ fn judge(
             }
             _ => {
                 rep.violation(
-                    &format!("C15:{name}:panic_swallowed:{loc}"),
+                    &format!("C15:panic_swallowed:{loc}"),
                     &format!("{name}: a task spawned by the call panicked at {loc} ({msg}) and the caller was handed an ordinary value instead of an error ({})", m.desc()),
                     replay(json!({"panic": msg, "location": loc, "result": format!("{:?}", out.result)})),
                 );
@@ -1310,14 +1310,14 @@ fn judge(
     let bound = ALLOC_BASE + 64 * input.len();
     if out.peak > bound {
         rep.violation(
-            &format!("C15:{name}:alloc_out_of_proportion"),
+            &format!("C15:alloc_out_of_proportion:{}", entry_group(name)),
             &format!("{name} requested {} bytes at peak (largest single request {}) for a {}-byte input ({}); bound 3*16 MiB + 64*len = {}", out.peak, out.largest, input.len(), m.desc(), bound),
             replay(json!({"peak": out.peak, "largest": out.largest, "bound": bound})),
         );
     }
     // (c) logical non-progress
     if let Err(CallErr::NoProgress(n)) = &out.result {
-        rep.violation(&format!("C15:{name}:no_progress"), &format!("{name} produced {n} items from a {}-byte input ({})", input.len(), m.desc()), replay(json!({"items": n})));
+        rep.violation(&format!("C15:no_progress:{}", entry_group(name)), &format!("{name} produced {n} items from a {}-byte input ({})", input.len(), m.desc()), replay(json!({"items": n})));
     }
 }
 
@@ -1579,7 +1579,7 @@ pub fn run(args: &Args, rep: &mut Reporter) {
         };
         rep.count(&format!("inputs:{entry}"), 1);
         rep.violation(
-            &format!("C15:{entry}:abort:{how}"),
+            &format!("C15:abort:{how}:{}", entry_group(&entry)),
             &format!("the process running {entry} was killed ({status}; last words: {last:?}) while handling a {input_len}-byte malformed input ({mutation})"),
             json!({"entry": entry, "mutation": mutation, "input_hex": input_hex, "input_len": input_len, "status": status.to_string(), "stderr": last}),
         );
@@ -1607,4 +1607,17 @@ pub fn run(args: &Args, rep: &mut Reporter) {
     rep.set_extra("entry_points", json!(targets().iter().map(|t| t.name.clone()).collect::<Vec<_>>()));
     rep.set_extra("bound", json!({"alloc": "peak > 3*16 MiB + 64*len", "per_input_timeout_s": 20, "budget_s": total_s}));
     rep.set_extra("skipped_entry_points", json!(["sos_server::BearerToken::new (sos-server is not a dependency of vcore; its payload decoder is covered as bearer:bs58+decode<BinaryEd25519Signature>)", "live HTTP server (vnet)"]));
+}
+
+
+/// Root-cause oriented grouping of entry points for signatures: the four
+/// kinds of event log share their reader, so `account_log:rewind` and
+/// `folder_log:rewind` are one group.
+fn entry_group(name: &str) -> String {
+    for k in ["folder_log:", "account_log:", "device_log:", "files_log:", "file_log:"] {
+        if let Some(rest) = name.strip_prefix(k) {
+            return format!("event_log:{rest}");
+        }
+    }
+    name.to_string()
 }
